@@ -66,7 +66,7 @@ CHECKS += [
   "note": _NOTE},
  {"id": "C13", "engine": "gridlint", "design_ref": "DESIGN.md 4/C13",
   "technique": "static guard-dominance analysis of third-axis constructs + symbolic array-shape abstract interpretation (per dimensionality) of the weight schemes + symbolic stride tables of the index maps",
-  "text": "Decides the clause 'every documented weighting scheme (and the index maps) construct in both dimensions': every construct that only exists in 3-D is dominated by a test implying ndim == 3; and the tensor-layout clause for weights: in 2-D and 3-D every scheme returns the C-order flattening of an array with axes (shape[0], shape[1][, shape[2]]) (or a uniform vector), Tensor1DGrids krons its weights in the meshgrid('ij') order of its points; the forward index map multiplies by the row-major strides (n1*n2, n2, 1)/(n1, 1), evaluated symbolically per dimensionality, and the inverse map divides by the same table (the divisors of the floor divisions / divmod executed for that dimensionality); both exits of the cube-file reader construct the grid from the same values (a unit conversion applied on one exit only is reported). Does NOT decide weights summing to the volume, nearest point, molecule margin, cube round trip, interpolation (numerical).",
+  "text": "Decides the clause 'every documented weighting scheme (and the index maps) construct in both dimensions': every construct that only exists in 3-D is dominated by a test implying ndim == 3; and the tensor-layout clause for weights: in 2-D and 3-D every scheme returns the C-order flattening of an array with axes (shape[0], shape[1][, shape[2]]) (or a uniform vector), Tensor1DGrids krons its weights in the meshgrid('ij') order of its points; the forward index map multiplies by the row-major strides (n1*n2, n2, 1)/(n1, 1), evaluated symbolically per dimensionality, and the inverse map divides by the same table (the divisors of the floor divisions / divmod executed for that dimensionality); both exits of the cube-file reader construct the grid from the same values (a unit conversion applied on one exit only is reported); the origin of the molecule-enclosing grid must depend on the lower/upper bound of the atomic coordinates other than through the point counts (necessary for containing every nucleus with the requested margin; one known finding: the box is centred on the centre of charge, a test pins it). Does NOT decide weights summing to the volume, nearest point, molecule margin, cube round trip, interpolation (numerical).",
   "note": _NOTE},
  {"id": "C14", "engine": "gridlint", "design_ref": "DESIGN.md 4/C14",
   "technique": "static name resolution of third-party references + symbolic row streams of the order generator compared as terms with the documented Horton order + dispatch agreement + array-shape abstract interpretation of the moment routine for dimensions 1-3",
